@@ -14,6 +14,7 @@ VARIANTS = {
     'casan': {'cxx': 'clang++-14', 'flags': _ASAN + ['-fno-sanitize=function,object-size']},
     'crel': {'cxx': 'clang++-14', 'flags': ['-O2', '-g', '-DNDEBUG']},
     'ctsan': {'cxx': 'clang++-14', 'flags': ['-O1', '-g', '-fsanitize=thread', '-DNDEBUG']},
+    'cattrib': {'cxx': 'clang++-14', 'flags': ['-O0', '-g', '-fno-inline', '-rdynamic', '-DNDEBUG'], 'libs': ['-ldl']},
 }
 
 Q, T = 'quick', 'thorough'
@@ -277,5 +278,47 @@ PROPS['C06'] = {
         J('hist_asan', 'c06.cpp', 'asan', [60000, 3000000], scenario='suspend_point_exhaustive,suspend_point_history', threads=1),
         J('hist_rel', 'c06.cpp', 'rel', [60000, 3000000], scenario='suspend_point_history', threads=1),
         J('hist_casan', 'c06.cpp', 'casan', [0, 1500000], scenario='suspend_point_exhaustive,suspend_point_history', threads=1, tiers=(T,), args=['--maxlen', '5']),
+    ],
+}
+
+PROPS['C04'] = {
+    'technique': 'generated start-mode x completion-mode programs with body counters, instance-counted arguments/locals/results, ASan/LSan, quiescence watchdog',
+    'level_text': ('Full cross product start mode {detach discarded/awaited, start(), start(promise&), start(promise&&), start(claimed promise), co_await, '
+                   'join(), future<T>(async), future<T>-returning coroutine, thread_pool::run, never started} x completion {immediate value/throw, '
+                   'suspended then value/throw, finished by the same or another thread} x T {void, int, move-only, counted}, then random programs with '
+                   'nesting depth 1-6 of co_await chains. Oracles: body counter per level exactly 1 (0 when not started), bound party receives exactly '
+                   'the produced value/exception, instance counters of arguments, frame locals and results return to the baseline (frame destroyed '
+                   'exactly once), start(promise) on a claimed promise reports false and leaves the coroutine unstarted.'),
+    'level_note': 'Frame destruction is observed through RAII guards living in the frame (double destruction -> liveness cookie / ASan; leak -> counters / LSan).',
+    'rule': ('case = one program; every program is non-trivial (it creates at least one coroutine); distinct = distinct (T, start mode, completion, depth, '
+             'throwing level, finishing thread).'),
+    'min_nontrivial': [150, 1000],
+    'single_thread_scenarios': ('async_programs',),
+    'jobs': [
+        J('prog_asan', 'c04.cpp', 'asan', [40000, 2000000], scenario='async_programs', threads=1),
+        J('prog_rel', 'c04.cpp', 'rel', [40000, 3000000], scenario='async_programs', threads=1),
+        J('prog_casan', 'c04.cpp', 'casan', [0, 1000000], scenario='async_programs', threads=1, tiers=(T,)),
+        J('prog_crel', 'c04.cpp', 'crel', [0, 2000000], scenario='async_programs', threads=1, tiers=(T,)),
+    ],
+}
+
+PROPS['C20'] = {
+    'technique': 'global operator new replacement with per-region accounting and backtrace()+dladdr attribution of every allocation',
+    'level_text': ('Inside each measured region every allocation is attributed: coroutine frames created by the program (harness flag around the creating '
+                   'call; required to be zero under a warm reusable_storage policy), the thread-local ready-queue std::deque (scheduler, counted '
+                   'separately), the documented heap block of a suspend point that has to carry MORE than three handles (allowed only when the '
+                   'program has >3 coroutine waiters), anything else => violation with the symbolised stack. Programs cover future/promise with 0-8 '
+                   'coroutine waiters, 0-3 callback awaiters and a blocking thread waiter, resolved by value/drop/destruction; mutex with 2-6 '
+                   'contenders incl. a blocking one and all release styles; suspend points carrying 0-3 handles through move/merge/pop/clear/'
+                   'destruction; synchronous generators stepped by next()/value(), range-for, call->future and with arguments.'),
+    'level_note': ('Built -O0 -fno-inline -rdynamic so that attribution sees real frames; exceptions allocate through malloc (not operator new) and are '
+                   'outside the statement; the blocking waiter runs on a persistent helper thread created outside the regions.'),
+    'rule': ('case = one generated program inside a measured region; non-trivial = all (each performs at least one primitive operation); distinct = '
+             'distinct program descriptor (primitive, waiter counts/kinds, resolve kind, storage policy, generator style/length).'),
+    'min_nontrivial': [100, 300],
+    'single_thread_scenarios': ('alloc_free_programs',),
+    'jobs': [
+        J('attrib', 'c20.cpp', 'attrib', [30000, 2000000], scenario='alloc_free_programs', threads=1),
+        J('attrib_clang', 'c20.cpp', 'cattrib', [0, 1000000], scenario='alloc_free_programs', threads=1, tiers=(T,)),
     ],
 }
